@@ -21,6 +21,7 @@ on the four implementations -- with plain set intersection.
 import functools
 import hashlib
 import itertools
+import math
 import os
 import shutil
 import sqlite3
@@ -304,6 +305,18 @@ def observe(name, view, mv, rows, case, universe, where):
   bsz = case['batch_size']
   w = f'{where} impl={name} view_ids={[b2h(i) for i in ids]}'
   want = {i: expected_examples(rows, mv, i) for i in ids}
+
+  if case['batch_size'] % 2 and not getattr(view, '_c08_seen', False):
+    # The first use of this view object is a walk of each kind that is given
+    # up after its first item (a stop-at-first-match search, a peek).
+    for walk in (view.client_ids, view.client_sizes, view.clients):
+      it = iter(walk())
+      next(it, None)
+      del it
+    try:
+      view._c08_seen = True  # pylint: disable=protected-access
+    except Exception:  # pylint: disable=broad-except
+      pass
 
   # Metadata.
   got_n = view.num_clients()
@@ -836,6 +849,75 @@ def slice_labels(case):
   return ls
 
 
+# ------------------------------------------------------------ many clients
+
+def run_many_clients(case):
+  """70-200 clients written in an order unrelated to their ids: every walk
+  (client_ids, client_sizes, clients, one shuffled pass) of every implementation
+  -- whole dataset and a slice -- names each client of the view exactly once
+  and hands out that client's own rows.  (Anything that pages, chunks or caches
+  a walk works within one page for the handful of clients of `histories`.)"""
+  n, stride = case['n'], case['stride']
+  order = [(i * stride) % n for i in range(n)]          # insertion order: a permutation
+  cid = lambda k: b'%s%04d' % (bytes.fromhex(case['prefix']), k)
+  rows = {cid(k): {'x': np.full((1 + k % 3, 2), k, np.int32)} for k in range(n)}
+  lo, hi = sorted((case['lo'] % n, case['hi'] % n))
+  tmp = tempfile.mkdtemp(dir='/var/tmp', prefix='C08m-')
+  conns = []
+  try:
+    path = os.path.join(tmp, 'data.sqlite')
+    with sql_lib.SQLiteFederatedDataBuilder(path) as builder:
+      builder.add_many((cid(k), rows[cid(k)]) for k in order)
+    sql = sql_lib.SQLiteFederatedData.new(path)
+    conns.append(getattr(sql, '_connection', None))
+    mem = mem_lib.InMemoryFederatedData({cid(k): dict(rows[cid(k)]) for k in order})
+    impls = {'mem': mem, 'sql': sql,
+             'sub_sql': fd_lib.SubsetFederatedData(sql, [cid(k) for k in order])}
+    for name, whole in impls.items():
+      for what, view, want in (
+          ('whole', whole, [cid(k) for k in range(n)]),
+          ('slice', whole.slice(cid(lo), cid(hi)), [cid(k) for k in range(lo, hi)])):
+        w = f'{name} {what} ({len(want)} of {n} clients)'
+        require(view.num_clients() == len(want), 'many:num_clients',
+                lambda: f'{w}: {view.num_clients()}')
+        for walk, got in (
+            ('client_ids', list(view.client_ids())),
+            ('client_sizes', [i for i, _ in view.client_sizes()]),
+            ('clients', [i for i, _ in view.clients()]),
+            ('shuffled_clients', [i for i, _ in itertools.islice(
+                view.shuffled_clients(case['buffer'], case['seed']), len(want))])):
+          require(sorted(got) == want, 'many:walk_does_not_name_every_client_once',
+                  lambda: f'{w}: {walk}() yields {len(got)} ids, {len(set(got))} distinct; '
+                          f'missing {sorted(set(want) - set(got))[:4]} '
+                          f'extra {sorted(set(got) - set(want))[:4]}')
+        for i, ds in view.clients():
+          k = int(i[-4:])
+          x = np.asarray(ds.raw_examples['x'])
+          require(x.shape == (1 + k % 3, 2) and bool((x == k).all()),
+                  'many:client_with_anothers_rows', lambda: f'{w}: {i!r}: {x.tolist()}')
+        sizes = dict(view.client_sizes())
+        require(all(sizes[i] == 1 + int(i[-4:]) % 3 for i in want), 'many:client_sizes', w)
+  finally:
+    for c in conns:
+      try:
+        if c is not None:
+          c.close()
+      except Exception:  # pylint: disable=broad-except
+        pass
+    shutil.rmtree(tmp, ignore_errors=True)
+  return []
+
+
+@st.composite
+def many_strategy(draw, tier):
+  n = draw(st.sampled_from([70, 129, 65, 200, 128, 64, 97]))
+  stride = draw(st.sampled_from([s for s in (7, 11, 13, 37, 59, 1, 101) if math.gcd(s, n) == 1]))
+  return {'n': n, 'stride': stride, 'prefix': draw(st.sampled_from(['63', '', '00', '6300'])),
+          'lo': draw(st.integers(0, 300)), 'hi': draw(st.integers(0, 300)),
+          'buffer': draw(st.sampled_from([1, 2, 64, 100, 500])),
+          'seed': draw(st.integers(0, 2**20))}
+
+
 # ------------------------------------------- iteration order across processes
 
 def collect_orders(case):
@@ -939,6 +1021,13 @@ CHECKS = [
           doc='lock-step interpretation of a generated view-operation tree on '
               'in-memory / SQLite / subset-over-each and a dict model; every '
               'live view observed after every step through every access path'),
+    Check(name='walks_over_many_clients', run=run_many_clients, strategy=many_strategy,
+          labels=lambda c: ['clients:%d' % c['n'], 'insertion_stride:%d' % c['stride']],
+          nontrivial=lambda c, ls: c['stride'] != 1,
+          budget={'quick': 64, 'thorough': 1200}, time_share=0.6,
+          doc='64-200 clients inserted in an order unrelated to their ids: every walk of '
+              'in-memory / SQLite / subset-over-SQLite (whole and sliced) names each client '
+              'of the view exactly once and hands out its own rows'),
     Check(name='slice_ranges_exhaustive', run=run_slice_ranges,
           cases=slice_range_cases, labels=slice_labels,
           nontrivial=lambda c, ls: any(c['bounds'][:2]) and any(c['bounds'][2:]),
